@@ -162,7 +162,9 @@ static void* concMain(void* a) {
     if (k >= 20 && k < 30 && !kAllowInPlace) k = 30;   // becomes a read
     if (k >= 55 && k < 64 && !kAllowInPlace) k = 64;   // becomes a read
     if (k >= 20 && k < 30 && r.chance(1, 2)) { // in-place modifiers other than append: each must detach a shared payload first
-      SModel& m = t.sm[i]; int mk = (int)r.below(4); ++t.mods;
+      SModel& m = t.sm[i]; int mk = (int)r.below(6); ++t.mods;
+      if (mk == 4) { t.s[i].clear(); m.n = 0; checkS(t.s[i], m, "after clear"); ++t.ops; continue; }          // an emptied heap payload stays a counted payload
+      if (mk == 5) { t.s[i].resize(0); m.n = 0; checkS(t.s[i], m, "after resize(0)"); ++t.ops; continue; }
       if (mk == 0 && m.n < 90) { t.s[i].append(' '); m.b[m.n++] = ' '; }
       else if (mk == 1) { t.s[i].trim(); int a0 = 0, b0 = m.n; while (a0 < b0 && strchr(" \t\r\n\v", m.b[a0])) ++a0; while (b0 > a0 && strchr(" \t\r\n\v", m.b[b0 - 1])) --b0; memmove(m.b, m.b + a0, (size_t)(b0 - a0)); m.n = b0 - a0; }
       else if (mk == 2) { t.s[i].toUpperCase(); for (int q = 0; q < m.n; ++q) if (m.b[q] >= 'a' && m.b[q] <= 'z') m.b[q] = (char)(m.b[q] - 32); }
@@ -265,7 +267,7 @@ static void* duelMain(void* a) {
   DArg& da = *(DArg*)a; Duel& d = *da.d; int t = da.t; Rng r(d.seed, 905, (u64)t); int sense = 0;
   for (long round = 0; round < d.rounds; ++round) {
     if (t == 0) { // hand out exactly T handles
-      if (d.kind == 0) { String o("duel-payload-string-with-some-length", 36); o.append((char)('a' + round % 26)); for (int i = 0; i < d.T; ++i) *d.s[i] = o; }
+      if (d.kind == 0) { String o("duel-payload-string-with-some-length", 36); o.append((char)('a' + round % 26)); if (round % 4 == 1) o.clear(); else if (round % 4 == 3) o = String((usize)48); /* also empty heap payloads */ for (int i = 0; i < d.T; ++i) *d.s[i] = o; }
       else if (d.kind == 1) { Variant o; if (round & 1) { List<Variant>& l = o.toList(); l.append(Variant((int64)round)); l.append(Variant(String("x", 1))); } else o = String("duel-variant-string-payload", 27); for (int i = 0; i < d.T; ++i) *d.v[i] = o; }
       else if (d.kind == 2) { Xml::Variant o; if (round & 1) { Xml::Element e; e.line = (int)round; e.type = String("t", 1); o = Xml::Variant(e); } else o = Xml::Variant(String("duel-xml-text", 13)); for (int i = 0; i < d.T; ++i) *d.x[i] = o; }
       else { Pay* n = new Pay; d.pid = n->id; for (int i = 0; i < d.T; ++i) { *d.p[i] = n; hold(d.pid); } }
